@@ -19,10 +19,10 @@ SPECS = [
     ("extract.snippet_whole_file", "reuse.extract", "reuse_info_of_file", "read_limit = None"),
     ("annotate.comment_create_error", "reuse._annotate", "add_header_to_file", "Error: Could not create comment for"),
     ("annotate.missing_reuse_info", "reuse._annotate", "add_header_to_file", "Error: Generated comment header for"),
-    ("annotate.fallback_dot_license_touch", "reuse._annotate", "add_header_to_file", "path.touch()"),
+    ("annotate.fallback_dot_license", "reuse._annotate", "add_header_to_file", "comment_style = EmptyCommentStyle"),
     ("annotate.skip_existing", "reuse._annotate", "add_header_to_file", "already containing REUSE information"),
     ("annotate.skip_unrecognised", "reuse._annotate", "add_header_to_file", "Skipped unrecognised file"),
-    ("annotate.force_dot_license_touch", "reuse.cli.annotate", "annotate", "path.touch()"),
+    ("annotate.force_dot_license", "reuse.cli.annotate", "annotate", "path = Path(new_path)"),
     ("annotate.write", "reuse._annotate", "add_header_to_file", "fp.write(output)"),
     ("header.merge_copyrights", "reuse.header", "create_header", "spdx_copyrights = merge_copyright_lines("),
     ("header.existing_header_merged", "reuse.header", "create_header", "reuse_info = existing_spdx | reuse_info"),
